@@ -361,6 +361,8 @@ theorem ack_put_last_action {b b' : BState} {o o' : Oracle} {c : PutCmd} (hc : b
     · cases hwa
     · split at hwa
       · simp only [Except.ok.injEq, Prod.mk.injEq] at hwa; obtain ⟨rfl, rfl⟩ := hwa; cases hrecv
+      split at hwa
+      · simp only [Except.ok.injEq, Prod.mk.injEq] at hwa; obtain ⟨rfl, rfl⟩ := hwa; cases hrecv
       · rename_i hlt
         simp only [Except.ok.injEq, Prod.mk.injEq] at hwa; obtain ⟨rfl, rfl⟩ := hwa
         exact Or.inr (Or.inr (Or.inl ⟨Or.inr (Or.inr ⟨rfl, by omega⟩), rfl⟩))
